@@ -466,4 +466,44 @@ theorem run_append (s : State) (h1 h2 : List Step) : run s (h1 ++ h2) = run (run
   simp [run, List.foldl_append]
 
 
+theorem getD_append_length {α} (l : List α) (b d : α) : (l ++ [b]).getD l.length d = b := by
+  simp [List.getD]
+
+theorem lookup_setBind_self (b : Binds) (k : String) (l : Leaf) : (setBind b k l).lookup k = some l := by
+  unfold setBind
+  cases h : b.lookup k with
+  | none =>
+    simp only [Option.isSome_none, Bool.false_eq_true, if_false]
+    have : ∀ (b : Binds), b.lookup k = none → (b ++ [(k, l)]).lookup k = some l := by
+      intro b
+      induction b with
+      | nil => intro _; simp [List.lookup]
+      | cons p b ih =>
+        intro hb
+        obtain ⟨k', l'⟩ := p
+        simp only [List.cons_append, List.lookup] at hb ⊢
+        cases hkk : (k == k') with
+        | true => simp [hkk] at hb
+        | false => simp only [hkk] at hb ⊢; exact ih hb
+    exact this b h
+  | some l0 =>
+    simp only [Option.isSome_some, if_true]
+    have : ∀ (b : Binds) l0, b.lookup k = some l0 → (b.map (fun p => if p.1 = k then (k, l) else p)).lookup k = some l := by
+      intro b
+      induction b with
+      | nil => intro l0 hb; simp [List.lookup] at hb
+      | cons p b ih =>
+        intro l0 hb
+        obtain ⟨k', l'⟩ := p
+        simp only [List.lookup] at hb
+        simp only [List.map_cons]
+        by_cases hk : k' = k
+        · subst hk; simp [List.lookup]
+        · have hne : (k == k') = false := by simpa using fun h => hk h.symm
+          simp only [hne] at hb
+          simp only [hk, if_false, List.lookup, hne]
+          exact ih l0 hb
+    exact this b l0 h
+
+
 end TdVerif.C07
